@@ -19,6 +19,12 @@ int v_connect(int, const struct sockaddr *, socklen_t);
 ssize_t v_send(int, const void *, size_t, int);
 int v_close(int);
 int v_access(const char *, int);
+int v_open(const char *, int, ...);
+ssize_t v_write(int, const void *, size_t);
+int v_fputs(const char *, FILE *);
+int v_fputc(int, FILE *);
+int v_puts(const char *);
+size_t v_fwrite(const void *, size_t, size_t, FILE *);
 int v_fileno(FILE *);
 int v_ftruncate(int, off_t);
 int v_fsync(int);
@@ -48,6 +54,15 @@ int v_fsync(int);
 #define send(...)     v_send(__VA_ARGS__)
 #define close(...)    v_close(__VA_ARGS__)
 #define access(...)   v_access(__VA_ARGS__)
+#define open(...)     v_open(__VA_ARGS__)
+#define write(...)    v_write(__VA_ARGS__)
+#ifdef fputc
+#undef fputc
+#endif
+#define fputs(...)    v_fputs(__VA_ARGS__)
+#define fputc(...)    v_fputc(__VA_ARGS__)
+#define puts(...)     v_puts(__VA_ARGS__)
+#define fwrite(...)   v_fwrite(__VA_ARGS__)
 #ifdef fileno
 #undef fileno
 #endif
